@@ -8,7 +8,8 @@ COQ_DIR = 'C02'
 COQ_HEADER = 'From V Require Import Common.Num C02.Model.\nOpen Scope Q_scope.'
 RULE = ('stub property package of three user-defined chemicals whose mixture H / Cn models are exact and phase dependent: '
         'H = sum n_i Cn_i (T - 298.15) with Cn = 64, 32, 128 in l/L/s/S and H = sum n_i (Cn_i (T - 298.15) + L_i) with Cn = 32, 16, 64, '
-        'L = 8192, 4096, 16384 in g; histories before the operation: property reads (fill the per-stream memo) and phase changes at '
+        'L = 8192, 4096, 16384 in g, plus a pressure term n k (P - 101325)/1024 in every phase (so that WHEN an inlet is read matters); S is '
+        'rational and phase / pressure dependent too; histories before the operation: property reads (fill the per-stream memo) and phase changes at '
         'unchanged T, P, flows; '
         'stores of 2-5 streams (single-phase l/g/s/L and two-phase g/l MultiStreams, also as receivers of s/L inlets; dyadic flows '
         'incl. empty streams and 1/1024..1024; T = 300..400 K in quarters, six pressures).  kinds: mix (Stream.mix_from with the real solver: 1-4 inlets, empty inlets, None, Heat/Power '
@@ -52,6 +53,9 @@ CNG = [32., 16., 64.]            # heat capacities of the gas
 LAT = [8192., 4096., 16384.]     # latent offset of the gas:  H(g, T) = sum n (CNG (T - Tref) + LAT)
 S0L = [4., 2., 8.]               # entropy offsets:  S(phase, T) = sum n (Cn(phase) (T - Tref) / 256 + S0(phase))
 SG = [16., 8., 32.]
+KPL = [1., 2., 1.]                # pressure coefficients:  H += n k (P - PREF) / 1024,  S -= n k (P - PREF) / 65536
+KPG = [16., 8., 32.]
+PREF = 101325.
 HF = [-1024., -512., 256.]
 IDS = ['A_', 'B_', 'C_']
 TREF = F(298.15)
@@ -73,14 +77,14 @@ def env():
         def items(mol):
             return mol.dct.items() if hasattr(mol, 'dct') else [(i, x) for i, x in enumerate(np.asarray(mol, float)) if x]
         def H_model(phase, mol, T, P):
-            if phase == 'g': return sum([x * (CNG[i] * (T - 298.15) + LAT[i]) for i, x in items(mol)])
-            return sum([x * (CN[i] * (T - 298.15)) for i, x in items(mol)])
+            if phase == 'g': return sum([x * (CNG[i] * (T - 298.15) + LAT[i] + KPG[i] * (P - PREF) / 1024.) for i, x in items(mol)])
+            return sum([x * (CN[i] * (T - 298.15) + KPL[i] * (P - PREF) / 1024.) for i, x in items(mol)])
         def Cn_model(phase, mol, T, P=None):
             c = CNG if phase == 'g' else CN
             return sum([x * c[i] for i, x in items(mol)])
         def S_model(phase, mol, T, P):
-            c, s0 = (CNG, SG) if phase == 'g' else (CN, S0L)
-            return sum([x * (c[i] * (T - 298.15) / 256. + s0[i]) for i, x in items(mol)])
+            c, s0, kp = (CNG, SG, KPG) if phase == 'g' else (CN, S0L, KPL)
+            return sum([x * (c[i] * (T - 298.15) / 256. + s0[i] - kp[i] * (P - PREF) / 65536.) for i, x in items(mol)])
         mix._H, mix.Cn, mix._S = H_model, Cn_model, S_model
     _env['tmo'].settings.set_thermo(_env['thermo'])
     _env['ids'] = IDS
@@ -140,7 +144,8 @@ def gen_script(rng, fail_single=None):
 def stub_C(d):
     return sum(F(x) * F(c) for ph, row in d['rows'].items() for x, c in zip(row, CNG if ph == 'g' else CN))
 def stub_H(d):
-    return stub_C(d) * (F(d['T']) - TREF) + sum(F(x) * F(c) for ph, row in d['rows'].items() if ph == 'g' for x, c in zip(row, LAT))
+    return (stub_C(d) * (F(d['T']) - TREF) + sum(F(x) * F(c) for ph, row in d['rows'].items() if ph == 'g' for x, c in zip(row, LAT))
+            + sum(F(x) * F(c) for ph, row in d['rows'].items() for x, c in zip(row, KPG if ph == 'g' else KPL)) * (F(d['P']) - F(PREF)) / 1024)
 def is_empty(d):
     return not any(any(r) for r in d['rows'].values())
 TMIN = 50     # the stub's enthalpy is only defined for T > 0: targets that need a colder stream are outside the property
@@ -190,6 +195,29 @@ def gen_mix(rng, scripted, fail_single=False):
     if scripted:
         case['script'] = gen_script(rng, fail_single=fail_single)
     return case
+
+def gen_zero_sum(rng):
+    """energy balances whose target enthalpy is exactly (or, through Q = -sum H, to the last bit) zero: inlets at the
+    reference state mixed into a receiver that still carries an older temperature, heat that cancels the inlets' enthalpy,
+    and H = 0 / h = 0 assigned to a hot stream"""
+    k = rng.random()
+    def ref_stream(ph='l'):
+        return {'multi': False, 'rows': {ph: gen_row(rng)}, 'T': 298.15, 'P': PREF}
+    if k < 0.4:
+        n = rng.randint(2, 3)
+        streams = [ref_stream(rng.choice('lls')) for _ in range(n)] + [gen_stream(rng, empty_p=0.3, multi_p=0.2, phases='llg')]
+        r = rng.choice([n, n, rng.randrange(n)])
+        streams[r]['T'] = float(rng.choice(TS)) if r == n else streams[r]['T']
+        return {'kind': 'mix', 'streams': streams, 'r': r, 'others': [['s', i] for i in range(n)], 'Q': 0., 'pre': []}
+    if k < 0.8:
+        n = rng.randint(1, 3)
+        streams = [gen_stream(rng, empty_p=0.2, multi_p=0.15, phases='llg') for _ in range(n)] + [gen_stream(rng, empty_p=0.5, multi_p=0.1, phases='lg')]
+        r = rng.choice([n, rng.randrange(n)])
+        others = [['s', i] for i in range(n)]
+        if rng.random() < 0.3: others.append(['heat', float(rng.choice([512, -512]))])
+        return {'kind': 'mix', 'streams': streams, 'r': r, 'others': others, 'Q': 0., 'Qcancel': True, 'pre': []}
+    s = gen_stream(rng, empty_p=0., multi_p=0.3, phases='llg')
+    return {'kind': 'set', 'stream': s, 'which': rng.choice(['H', 'H', 'h', 'Hnet']), 'mode': 'zero', 'value': 0., 'pre': []}
 
 def gen_sep(rng):
     n = rng.randint(2, 3)
@@ -255,6 +283,16 @@ def gen_wrap(rng):
             'exact_guess': rng.random() < 0.3, 'secant': float(rng.choice(TS)),
             'aitken_raises': rng.random() < 0.15, 'secant_raises': rng.random() < 0.3,
             'ea': float(rng.choice([1, 1, 2])), 'eb': float(rng.choice([1, 2, 4]))}
+
+def gen_imodel(rng):
+    """the in-repo ideal mixture models called directly on UNNORMALISED flows (any total), affine pure-component models,
+    a rational stand-in for log"""
+    n = rng.randint(1, 4)
+    mol = [float(rng.choice([0, 1, 2, F(1, 2), 4, F(1, 4), 3, 8, 120, F(1, 8)])) for _ in range(n)]
+    return {'kind': 'imodel', 'var': rng.choice(['S', 'S', 'TP', 'T']), 'phase': rng.choice('lgs'),
+            'mol': mol, 'T': float(rng.choice(TS)), 'P': rng.choice(PS),
+            'models': [[float(rng.choice(DY)), float(rng.choice([0, 1, F(1, 2), 2])), float(rng.choice([0, 8, 64]))] for _ in range(n)],
+            'ea': float(rng.choice([1, 1, 2, F(1, 2)])), 'eb': float(rng.choice([1, 2, 4]))}
 
 HIST_T = [300., 320., 350., 350.5, 400.]
 HIST_P = [101325., 200000., 50000.]
@@ -339,6 +377,8 @@ def gen_cases(rng, tier):
     cases += [gen_iter(rng) for _ in range(40 * n)]
     cases += [gen_wrap(rng) for _ in range(30 * n)]
     cases += [gen_hist(rng) for _ in range(80 * n)]
+    cases += [gen_imodel(rng) for _ in range(40 * n)]
+    cases += [gen_zero_sum(rng) for _ in range(30 * n)]
     return cases
 
 # ------------------------------------------------------------------ implementation side
@@ -367,6 +407,13 @@ def snap(s):
         rows = [[PH[s.phase], [fr_json(frac(x)) for x in np.asarray(s.mol.to_array(), float)]]]
         multi = False
     return {'multi': multi, 'pm': rows, 'T': fr_json(frac(s.T)), 'P': fr_json(frac(s.P))}
+
+def resolve_Q(case, objs):
+    """Q = -(sum of the non-empty inlets' enthalpy + heat objects) when the case asks for heat that cancels the inlets"""
+    if not case.get('Qcancel'): return case['Q']
+    tmo = _env['tmo']
+    ins = [objs[o[1]] for o in case['others'] if o[0] == 's' and not objs[o[1]].isempty()]
+    return -(sum([true_H(x) for x in ins]) + sum(o[1] for o in case['others'] if o[0] in ('heat', 'power')))
 
 def build_others(case, objs):
     tmo = env()['tmo']
@@ -489,6 +536,27 @@ def run_wrap(case):
     out['left'] = len(m._free_energy_args)
     return out
 
+def imodel_call(case, mol, stand_in=True):
+    import thermosteam.mixture.ideal_mixture_model as imm
+    ms = case['models']
+    if case['var'] == 'T':
+        models = [(lambda phase, T, a=a, c=c: a * T + (c if phase == 'g' else 0.)) for a, b, c in ms]
+        f = imm.IdealTMixtureModel(models, 'Cn'); args = (case['phase'], np.array(mol, float), case['T'])
+    else:
+        models = [(lambda phase, T, P, a=a, b=b, c=c: a * T + b * P / 1024. + (c if phase == 'g' else 0.)) for a, b, c in ms]
+        cls = imm.IdealEntropyModel if case['var'] == 'S' else imm.IdealTPMixtureModel
+        f = cls(models, case['var']); args = (case['phase'], np.array(mol, float), case['T'], case['P'])
+    saved = imm.log
+    if stand_in: imm.log = lambda x: (x - case['ea']) / case['eb']
+    try: return float(f(*args))
+    finally: imm.log = saved
+
+def run_imodel(case):
+    out = {'err': None}
+    try: out['v'] = fr_json(frac(imodel_call(case, case['mol'])))
+    except Exception as ex: out['err'] = err_of(ex)
+    return out
+
 def true_S(s):
     return float(s.mixture.S(s.phase, s.mol, s.T, s.P))
 
@@ -573,12 +641,13 @@ def run_impl(case):
         apply_pre(case, objs)
         out['init'] = [snap(s) for s in objs]
         out['H0'] = readable(lambda: [fr_json(frac(s.H)) for s in objs]) if case.get('pre') and len(case['pre']) % 2 else None
+        if k != 'sep': out['Q'] = Qv = float(resolve_Q(case, objs))
         try:
             with solver_ctx(case):
                 if k == 'sep':
                     objs[case['r']].separate_out(objs[case['o']])
                 else:
-                    objs[case['r']].mix_from(build_others(case, objs), Q=case['Q'])
+                    objs[case['r']].mix_from(build_others(case, objs), Q=Qv)
         except Exception as ex:
             out['err'] = err_of(ex); out['exc'] = f'{type(ex).__name__}: {ex}'[:200]
         out['final'] = [snap(s) for s in objs]
@@ -625,6 +694,8 @@ def run_impl(case):
         return run_wrap(case)
     if k == 'hist':
         return run_hist(case, check=False)[0]
+    if k == 'imodel':
+        return run_imodel(case)
     raise ValueError(k)
 
 # ------------------------------------------------------------------ model side
@@ -645,7 +716,7 @@ def coracles(case):
         return f'(script_oracles {CSTUB} {qlist(HF)} {q(TREF)} {t} {t})'
     return f'(lin_oracles {CSTUB} {qlist(HF)} {q(TREF)})'
 
-CSTUB = f'(mkP {qlist(CN)} {qlist(CNG)} {qlist(LAT)} {qlist(S0L)} {qlist(SG)})'
+CSTUB = f'(mkP {qlist(CN)} {qlist(CNG)} {qlist(LAT)} {qlist(S0L)} {qlist(SG)} {qlist(KPL)} {qlist(KPG)} {q(PREF)})'
 
 def cinlet(o):
     if o[0] == 's': return f'(IStream {cnat(o[1])})'
@@ -659,7 +730,7 @@ def model_term(case, out):
     k = case['kind']
     O = coracles(case)
     if k in ('mix', 'mixs'):
-        return f'(mix_from {O} {clist([cstream(s) for s in out["init"]])} {cnat(case["r"])} {clist([cinlet(o) for o in case["others"]])} {q(case["Q"])})'
+        return f'(mix_from {O} {clist([cstream(s) for s in out["init"]])} {cnat(case["r"])} {clist([cinlet(o) for o in case["others"]])} {q(out["Q"])})'
     if k == 'sep':
         return f'(separate_out {O} {clist([cstream(s) for s in out["init"]])} {cnat(case["r"])} {cnat(case["o"])})'
     if k == 'set':
@@ -684,6 +755,13 @@ def model_term(case, out):
         if var[-1] == 'H':
             return f'(solve_T_at_HP_ws {loaded} {common})'
         return f'(solve_T_at_SP_ws {loaded} (fun y => ({q(case.get("ea", 1.))} + y) / {q(case.get("eb", 1.))}) {common})'
+    if k == 'imodel':
+        ms = clist([f'(fun (p : phase) (T P : Q) => {q(a)} * T + {q(b if case["var"] != "T" else 0.)} * P / 1024 + '
+                    f'(if (p =? 3)%nat then {q(c)} else 0))' for a, b, c in case['models']])
+        args = f'{ms} {cnat(PH[case["phase"]])} {qlist(case["mol"])} {q(case["T"])} {q(case["P"])}'
+        if case['var'] == 'S':
+            return f'(ideal_S (fun x => (x - {q(case["ea"])}) / {q(case["eb"])}) {args})'
+        return f'(ideal_sum {args})'
     if k == 'hist':
         return (f'(hrun {O} (get_prop {O}) (map (fun s => mkCell s None) {clist([cstream(x) for x in out["init"]])}, '
                 f'seq 0 {cnat(len(out["init"]))}) {clist([chop(o) for o in case["ops"]])})')
@@ -693,7 +771,8 @@ def cancels(snapshot, H):
     """float H = C*(T - Tref) + L loses digits when it is tiny relative to C*T + L; then only the state (T to 1e-9) is compared"""
     C = sum(F(x) * F(c) for _, row in snapshot['pm'] for x, c in zip(row, CN))
     L = sum(F(x) * F(c) for p, row in snapshot['pm'] if p == PH['g'] for x, c in zip(row, LAT))
-    return abs(F(H)) < F(1, 100000) * (C * abs(F(snapshot['T'])) + L)
+    K = sum(F(x) * F(c) for p, row in snapshot['pm'] for x, c in zip(row, KPG if p == PH['g'] else KPL)) * abs(F(snapshot['P']) - F(PREF)) / 1024
+    return abs(F(H)) < F(1, 100000) * (C * abs(F(snapshot['T'])) + L + K)
 
 WHICH = {'H': 0, 'S': 1, 'h': 2, 'Hnet': 3}
 def chop(op):
@@ -747,6 +826,8 @@ def coq_case(case, out):
     if k == 'wrap':
         exp = cres(out['err'], q(F(out['T'])) if not out['err'] else '')
         return f'(ws_eqb {t} {exp} {cnat(out["left"])})'
+    if k == 'imodel':
+        return 'false' if out['err'] else f'(qapproxb {t} {q(F(out["v"]))})'
     if k == 'hist':
         O = coracles(case)
         init = clist([cstream(x) for x in out['init']])
@@ -789,6 +870,8 @@ def classify(case, out):
         ks.append('iter:' + case['var'])
     if k == 'wrap':
         ks.append('wrap:' + case.get('var', 'H') + ':' + '+'.join(out.get('calls', [])) + (':raises' if out.get('err') else ''))
+    if k == 'imodel':
+        ks.append('imodel:' + case['var'] + (':total=1' if sum(case['mol']) == 1 else ':total!=1'))
     if k == 'hist':
         ks.append('hist:handles:%d' % len(out.get('cells', [])))
         for o in case['ops']: ks.append('hist:op:' + o[0])
@@ -833,13 +916,15 @@ def oracle(case):
         for o in ne:
             if not close(o.H, true_H(o), tolH):
                 return f'stale-H: Stream.H returns {o.H!r} but the mixture model gives {true_H(o)!r} for phase {o.phase!r} (history {case.get("pre")})'
-        H_in = sum(true_H(o) for o in ne) + case['Q'] + sum(o.heat for o in others if isinstance(o, (tmo.Heat, tmo.Power)))
+        Qv = float(resolve_Q(case, objs))
+        H_in = sum(true_H(o) for o in ne) + Qv + sum(o.heat for o in others if isinstance(o, (tmo.Heat, tmo.Power)))
+        scale = sum(abs(true_H(o)) for o in ne) + abs(Qv)
         P_min = min(o.P for o in ne)
         total_in = sum(o.F_mol for o in ne)
         before = [state(s) for s in objs]
         try:
             with solver_ctx(case, real_otherwise=True):
-                r.mix_from(others, Q=case['Q'])
+                r.mix_from(others, Q=Qv)
         except Exception as ex:
             if case.get('script'): return None       # the injected solver failures may make the mix impossible
             if total_in == 0 or r.F_mol == 0 or any(x < 0 for x in state(r)[2]): return None
@@ -892,11 +977,14 @@ def oracle(case):
             if not close(s.T, T0, 1e-5 if real else 1e-7) or s.phases != ph0:
                 return f'set-{w}: assigning the current {w} moved the stream from T={T0}, {ph0} to T={s.T}, {s.phases}'
             return None
-        # a reachable target: the value the stream has at another temperature in range
+        # a reachable target: the case's own value when the stream can have it, else the value at another temperature in range
         T0 = s.T
-        s.T = (T0 - 20. + (case['value'] % 41)) if real else 300. + (case['value'] % 97)
-        target = getattr(s, w)
-        s.T = T0
+        if not real and not case.get('script') and reachable(s, w, case['value'] if case['mode'] != 'zero' else 0.):
+            target = case['value'] if case['mode'] != 'zero' else 0.
+        else:
+            s.T = (T0 - 20. + (case['value'] % 41)) if real else 300. + (case['value'] % 97)
+            target = getattr(s, w)
+            s.T = T0
         flows = state(s)[2]
         try:
             with solver_ctx(case, real_otherwise=True):
@@ -905,7 +993,8 @@ def oracle(case):
             return f'set-{w}-fallback: setter raised {type(ex).__name__}: {str(ex)[:120]}' if case.get('script') and _one_flip_ok(case) else None
         back = getattr(s, w)
         tag = f'set-{w}-fallback' if case.get('script') else f'set-{w}'
-        if not close(back, target, 1e-5 if real else 1e-6): return f'{tag}: assigned {w}={target!r}, reading it back gives {back!r} (T={s.T})'
+        if not close(back, target, 1e-5 if real else 1e-6) or (target == 0. and abs(back) > 1e-6 * abs(s.F_mol) * 300):
+            return f'{tag}: assigned {w}={target!r}, reading it back gives {back!r} (T={s.T})'
         if state(s)[2] != flows: return f'{tag}: the setter changed the flows'
         return None
     if k == 'iter':
@@ -919,6 +1008,16 @@ def oracle(case):
         return None
     if k == 'hist':
         return run_hist(case, check=True)[1]
+    if k == 'imodel':
+        if not any(case['mol']): return None
+        a = imodel_call(case, case['mol'], stand_in=False)
+        for kk in (4., 0.25, 1. / sum(case['mol'])):
+            b = imodel_call(case, [x * kk for x in case['mol']], stand_in=False)
+            if not close(b, kk * a, 1e-9):
+                name = {'S': 'IdealEntropyModel', 'TP': 'IdealTPMixtureModel', 'T': 'IdealTMixtureModel'}[case['var']]
+                return (f'not-homogeneous: {name}({kk}*mol) = {b!r} but {kk}*{name}(mol) = {kk * a!r} for mol={case["mol"]}: the getter '
+                        f'(normalised composition times total flow) and the setter (raw flows) no longer see the same function')
+        return None
     if k == 'eos':
         return oracle_eos(case)
     return None
